@@ -457,7 +457,7 @@ func (g *Gen) metaShape(depth, d int) []Stmt {
 		g.use("meta-protect")
 		return []Stmt{local1(mt, &Table{Items: []TItem{{Kind: 1, Name: "__metatable", E: str("locked")}}}),
 			local1(o, call("setmetatable", &Table{}, v(mt))), emit(call("getmetatable", v(o))),
-			emit(call("pcall", v("setmetatable"), v(o), &Table{})), emit(bin("==", call("getmetatable", &Table{}), &Nil{}))}
+			emit(call("pcall", &Func{Body: []Stmt{ret(call("setmetatable", v(o), &Table{}))}})), emit(bin("==", call("getmetatable", &Table{}), &Nil{}))}
 	}
 }
 
